@@ -45,7 +45,7 @@ _PURE_BUILTINS = {
     "tuple": tuple, "list": list, "set": set, "frozenset": frozenset, "dict": dict, "zip": lambda *a: list(zip(*a)),
     "range": lambda *a: list(range(*a)), "enumerate": lambda x, start=0: list(enumerate(x, start)),
     "reversed": lambda x: list(reversed(x)), "any": any, "all": all, "abs": abs, "chr": chr, "ord": ord, "float": float,
-    "divmod": divmod, "round": round, "pow": pow,
+    "divmod": divmod, "round": round, "pow": pow, "next": next, "iter": iter,
 }
 _MATH = {"isfinite", "isinf", "isnan", "log10", "log2", "log", "floor", "ceil", "prod", "sqrt", "copysign", "fabs"}
 _METHODS = {
@@ -59,12 +59,14 @@ _METHODS = {
 
 
 class Mini:
-    def __init__(self, funcs=None, budget=20000, consts=None):
+    def __init__(self, funcs=None, budget=20000, consts=None, externals=None):
         """``funcs``: name -> ast.FunctionDef of helper functions that may be called (interpreted recursively);
         ``consts``: module-level constants (strings, numbers) the functions read."""
         self.funcs = funcs or {}
         self.budget = budget
         self.consts = consts or {}
+        # name -> python callable standing in for a function that is outside the fragment (called with evaluated args)
+        self.externals = externals or {}
 
     # ------------------------------------------------------------ expressions
     def ev(self, e, env):
@@ -186,7 +188,7 @@ class Mini:
 
     def _call(self, e, env):
         fn = e.func
-        if e.keywords and not (isinstance(fn, ast.Name) and (fn.id in self.funcs or fn.id == "sorted")):
+        if e.keywords and not (isinstance(fn, ast.Name) and (fn.id in self.funcs or fn.id in self.externals or fn.id == "sorted")):
             raise NoEval("keyword arguments")
         if isinstance(fn, ast.Name):
             if fn.id == "slice":
@@ -214,6 +216,8 @@ class Mini:
             if isinstance(env.get(fn.id), tuple) and env[fn.id][:1] == ("mathfn",):
                 import math as _math
                 return getattr(_math, env[fn.id][1])(*[self.ev(a, env) for a in e.args])
+            if fn.id in self.externals:
+                return self.externals[fn.id](*[self.ev(a, env) for a in e.args], **{k.arg: self.ev(k.value, env) for k in e.keywords})
             if fn.id in self.funcs:
                 args = [self.ev(a, env) for a in e.args]
                 kw = {k.arg: self.ev(k.value, env) for k in e.keywords}
